@@ -307,7 +307,8 @@ impl SpecificContextDataStack<'_> {
                     None
                 }
             })
-            .sum::<u64>() as u16
+            .sum::<u64>()
+            .min(u16::MAX as u64) as u16
     }
 
     pub(super) fn iter(
